@@ -120,22 +120,32 @@ func Route(layout int) {
 }
 
 // Misaligned: an Attach whose range is not 16-byte aligned is rejected and changes no routing.
-func Misaligned(layout int) {
+// The range starts somewhere in window segment seg0 and ends somewhere in segment seg1 (the low
+// nibbles of both bounds are symbolic, assumed misaligned); FarAway additionally tries fully
+// symbolic 24-bit bounds.
+func Misaligned(layout int, seg0 int, seg1 int) {
 	b, ps, _ := build(layout)
-	start, end := vp.U32("start"), vp.U32("end")
-	vp.Assume(start < 1<<24 && end < 1<<24)
+	var start, end uint32
+	if seg0 < 0 {
+		start, end = vp.U32("start"), vp.U32("end")
+		vp.Assume(start < 1<<24 && end < 1<<24)
+	} else {
+		start = uint32(winBase+16*seg0) | uint32(vp.U8("start-nibble")&0xF)
+		end = uint32(winBase+16*seg1) | uint32(vp.U8("end-nibble")&0xF)
+	}
 	vp.Assume(start&0xF != 0 || (end+1)&0xF != 0)
 	intruder := &probe{id: 9}
-	err := b.Attach(intruder, "intruder", start, end)
-	vp.Assert("misaligned-attach-rejected", err != nil)
+	var err error
+	failed := vp.Try(func() { err = b.Attach(intruder, "intruder", start, end) })
+	vp.Assert("misaligned-attach-rejected", !failed && err != nil)
 	// routing unchanged: the intruder is never reached, the earlier probes still are
 	a := uint32(winBase) + uint32(vp.U16("offset"))
 	vp.Assume(a < winBase+16*winSegs)
 	before := [3]int{ps[0].reads, ps[1].reads, ps[2].reads}
-	failed := vp.Try(func() { b.EaRead(a) })
+	failedRead := vp.Try(func() { b.EaRead(a) })
 	vp.Assert("rejected-attach-changes-no-routing", intruder.reads == 0 && intruder.writes == 0)
 	after := ps[0].reads + ps[1].reads + ps[2].reads - before[0] - before[1] - before[2]
-	vp.Assert("earlier-routing-still-in-force", (failed && after == 0) || (!failed && after == 1))
+	vp.Assert("earlier-routing-still-in-force", (failedRead && after == 0) || (!failedRead && after == 1))
 	vp.Reach("end")
 }
 
